@@ -20,7 +20,7 @@ Not decided: numeric equality with sums recomputed from the raw frame.
 import ast
 import re
 
-from mmsa import au, cfg as cfgmod, dataflow, search, sym
+from mmsa import au, canon, cfg as cfgmod, dataflow, search, sym
 from mmsa.core import Undecided, norm, walk_no_nested
 from mmsa.types import FuncCtx
 
@@ -141,7 +141,7 @@ def r1_r2_r5_search(repo, rep, name):
         rep.violation('R5/score-entry', f.qualname, 'no score replacement', 'exhaustive_search with a budget range no longer replaces the last score entry by max budget / required impact', f.loc())
       for n in repl:
         facts_none = {'self.parameters.budget_range': 'none'}
-        resolve_at = lambda node, nm: rd.resolve(node, nm)
+        resolve_at = lambda node, e_: rd.expand(node, e_)[0]
         reach = g.reachable(g.entry, cfgmod.edge_filter_under(g, facts_none, resolve_at=resolve_at, extra=cfgmod.no_exc))
         rep.check(n not in reach, 'R5/score-entry', 'replacement happens only when a budget range is given', f.qualname, norm(n.ast)[:100],
                   'the last score entry is replaced even without a budget range', f.loc(n.ast))
@@ -218,17 +218,18 @@ def r4_data_object(repo, rep):
   ctx = FuncCtx.of(st)
   geos = st.params[1]
   want = {
-      'geo_assignments': r'self\.geo_eligibility\.get_eligible_assignments\(%s, indices=True\)' % geos,
+      'geo_assignments': r'self\.geo_eligibility\.get_eligible_assignments\(%s, True\)' % geos,
       '_geo_index': r'(list\()?%s\)?' % geos,
       '_array': r'self\.df\.loc\[%s\]\.(to_numpy\(\)|values)' % geos,
       '_array_geo_share': r'(np|numpy)\.array\(self\.geo_share(\.loc)?\[%s\]\)|self\.geo_share(\.loc)?\[%s\]\.(to_numpy\(\)|values)' % (geos, geos),
   }
   found = {}
+  cn = canon.of(repo)
   for n in ctx.g.nodes:
     if n.kind == 'stmt' and isinstance(n.ast, ast.Assign):
       for t in n.ast.targets:
         if isinstance(t, ast.Attribute) and norm(t.value) == st.params[0] and t.attr in want:
-          found[t.attr] = (n, norm(ctx.rd.expand(n, n.ast.value, keep=(geos,))[0]))
+          found[t.attr] = (n, cn.text(ctx.rd.expand(n, n.ast.value, keep=(geos,))[0]))
   for fld, pat in want.items():
     if fld not in found:
       rep.violation('R4/single-source', st.qualname, 'self.%s not set' % fld, 'the geo_index setter no longer sets %s: aggregates use a stale array' % fld, st.loc())
@@ -256,7 +257,7 @@ def r4_data_object(repo, rep):
     rets = [s for s in walk_no_nested(m.node) if isinstance(s, ast.Return) and s.value is not None]
     mctx = FuncCtx.of(m)
     for r in rets:
-      txt = norm(mctx.rd.expand(mctx.node_at(r), r.value, keep=(arg,))[0])
+      txt = cn.text(mctx.rd.expand(mctx.node_at(r), r.value, keep=(arg,))[0])
       pat = r'(float\()?self\.%s\[(list|sorted)\(%s\)\]\.sum\(%s\)\)?' % (arr, arg, ('axis=0' if axis else ''))
       rep.check(re.fullmatch(pat, txt) is not None, 'R4/single-source', '%s sums the rows of %s selected by its argument' % (mname, arr), m.qualname, txt[:100],
                 '%s returns `%s`: not the sum over the given geo indices of %s%s' % (mname, txt[:80], arr, ' along the geo axis' if axis else ''), m.loc(r))
